@@ -267,6 +267,8 @@ def main_check(pid, tier, seed, replay=None):
         for name, minimum in getattr(mod, 'REQUIRED', {}).get(tier, getattr(mod, 'REQUIRED', {}).get('any', {})).items():
             if counters.get(name, 0) < minimum:
                 inconcl.append('monitor %s observed %d < %d events' % (name, counters.get(name, 0), minimum))
+        if hasattr(mod, 'extra_inconclusive'):
+            inconcl += list(mod.extra_inconclusive(counters, tier))
         if len(bad_shards) > max(0, len(specs) // 4):
             inconcl.append('%d of %d shards failed/timeouts' % (len(bad_shards), len(specs)))
         if len(distinct) < 2 or evaluations < 1:
